@@ -1175,6 +1175,7 @@ int main(int argc, char** argv)
     for (int64_t c = from; c < to; ++c)
     {
         emit(J().kv("t", "case_begin").kv("case", c).str());
+        arm_case_watchdog(40);
         const int junk = static_cast<int>((seed + static_cast<uint64_t>(c)) % 4);
         const int placement = static_cast<int>((static_cast<uint64_t>(c) / 4) % 2);
         const uint64_t d1 = e.run_case(seed, c, junk, placement);
